@@ -8,7 +8,7 @@ from ..an import avoiding_path, cut, is_method_call
 from ..cfg import calls_at
 from ..core import Checker
 from ..loader import Func, norm, walk_expr, walk_own
-from ..prov import refers_to_call, call_name, expand, get_arg, scope_of
+from ..prov import refers_to_call, call_name, expand, expand1, get_arg, scope_of
 from .transfer_common import TransferModel, build_model, check_oneshot, is_dir_ident
 
 
@@ -265,7 +265,7 @@ def _check_index(ck: Checker, m: TransferModel, success_edge) -> None:
             h = g.nodes[x.loops[-1]]
             if h.kind == "for" and isinstance(h.ast.target, ast.Name) and isinstance(h.ast.iter, ast.Name) and h.ast.iter.id == m.success_list:
                 lv = h.ast.target.id
-                a0ok = norm(a0) in (f"[{lv}.hash_info.value]", f"[{lv}.oid]")
+                a0ok = any(norm(z) in (f"[{lv}.hash_info.value]", f"[{lv}.oid]") for z in [a0] + expand1(prog, move, a0, levels=3))
                 a1ok = False
                 for alt in expand(prog, move, a1):
                     if isinstance(alt, (ast.SetComp, ast.ListComp, ast.GeneratorExp)):
